@@ -77,7 +77,13 @@ pub struct RaptorQDecoder {
     decoder: raptorq::SourceBlockDecoder,
     data: Option<Vec<u8>>,
     sbn: u32,
+    encoding_symbol_length: usize,
 }
+
+/// Maximum number of source symbols in a source block (K'_max), RFC 6330 section 5.1.2
+const RAPTORQ_MAX_SOURCE_SYMBOLS_PER_BLOCK: usize = 56403;
+/// Maximum transfer length of RaptorQ, RFC 6330 section 4.4.1.2 and errata 5548
+const RAPTORQ_MAX_TRANSFER_LENGTH: u64 = 942574504275;
 
 impl RaptorQDecoder {
     pub fn new(
@@ -85,7 +91,30 @@ impl RaptorQDecoder {
         nb_source_symbols: usize,
         encoding_symbol_length: usize,
         scheme: &RaptorQSchemeSpecific,
-    ) -> RaptorQDecoder {
+    ) -> Result<RaptorQDecoder> {
+        // Parameters are received from the network (EXT_FTI / FDT),
+        // check the preconditions of the raptorq crate (asserts and divisions)
+        let block_length = nb_source_symbols as u64 * encoding_symbol_length as u64;
+        if nb_source_symbols == 0
+            || nb_source_symbols > RAPTORQ_MAX_SOURCE_SYMBOLS_PER_BLOCK
+            || encoding_symbol_length == 0
+            || encoding_symbol_length > u16::MAX as usize
+            || block_length > RAPTORQ_MAX_TRANSFER_LENGTH
+            || scheme.symbol_alignment == 0
+            || encoding_symbol_length % scheme.symbol_alignment as usize != 0
+            || scheme.sub_blocks_length == 0
+            || scheme.sub_blocks_length as usize
+                > encoding_symbol_length / scheme.symbol_alignment as usize
+        {
+            return Err(FluteError::new(format!(
+                "RaptorQ parameters are not valid K={} T={} N={} Al={}",
+                nb_source_symbols,
+                encoding_symbol_length,
+                scheme.sub_blocks_length,
+                scheme.symbol_alignment
+            )));
+        }
+
         let config = raptorq::ObjectTransmissionInformation::new(
             (nb_source_symbols * encoding_symbol_length) as u64,
             encoding_symbol_length as u16,
@@ -94,19 +123,28 @@ impl RaptorQDecoder {
             scheme.symbol_alignment,
         );
 
-        let block_length = nb_source_symbols as u64 * encoding_symbol_length as u64;
         let decoder = raptorq::SourceBlockDecoder::new(sbn as u8, &config, block_length);
-        RaptorQDecoder {
+        Ok(RaptorQDecoder {
             decoder,
             data: None,
             sbn,
-        }
+            encoding_symbol_length,
+        })
     }
 }
 
 impl FecDecoder for RaptorQDecoder {
     fn push_symbol(&mut self, encoding_symbol: &[u8], esi: u32) {
         if self.data.is_some() {
+            return;
+        }
+
+        if encoding_symbol.len() != self.encoding_symbol_length {
+            log::warn!(
+                "Skip encoding symbol of size {} whereas the symbol size is {}",
+                encoding_symbol.len(),
+                self.encoding_symbol_length
+            );
             return;
         }
 
